@@ -189,6 +189,9 @@ def closure(site, opts, start_hosts):
         if page is None:
             continue
         if page.kind == 'redirect':
+            # the hop is judged with the record of the redirecting URL (only the span-hosts rule is waived for redirects)
+            if not refscope.verdict(page.location[1], rec, opts, start_hosts, is_redirect=True)[0]:
+                continue
             requested.add(page.location[1])
             page = site.pages.get(page.location[1])
             if page is None:
